@@ -357,20 +357,109 @@ func (c *c05Ctx) keyedUpdateHelper(fn *types.Func) bool {
 	return true
 }
 
+// comparatorTotal: the less / compare function literal orders the ELEMENTS THEMSELVES: its last statement returns
+// `xs[i] < xs[j]` (or `>`), `a < b`, `cmp.Compare(a, b)` or `strings.Compare(a, b)` on the two parameters directly —
+// possibly after `if a.k != b.k { return a.k < b.k }` guards (lexicographic with a final tie-break on the element).
+// Anything else (a key FUNCTION of the element such as strings.ToLower(x), a field) is not a total order on the
+// elements: ties keep whatever order the slice had, which for a slice filled from a map range is random.
+func comparatorTotal(sorted string, fn ast.Expr) (bool, string) {
+	lit, ok := fn.(*ast.FuncLit)
+	if !ok || len(lit.Body.List) == 0 || lit.Type.Params == nil {
+		return false, types.ExprString(fn)
+	}
+	var params []string
+	for _, f := range lit.Type.Params.List {
+		for _, n := range f.Names {
+			params = append(params, n.Name)
+		}
+	}
+	ret, ok := lit.Body.List[len(lit.Body.List)-1].(*ast.ReturnStmt)
+	if !ok || len(ret.Results) != 1 || len(params) != 2 {
+		return false, "no final return"
+	}
+	text := types.ExprString(ret.Results[0])
+	isElem := func(e ast.Expr, p string) bool {
+		switch x := e.(type) {
+		case *ast.Ident:
+			return x.Name == p
+		case *ast.IndexExpr:
+			return types.ExprString(x.X) == sorted && types.ExprString(x.Index) == p
+		}
+		return false
+	}
+	switch r := ret.Results[0].(type) {
+	case *ast.BinaryExpr:
+		if r.Op == token.LSS || r.Op == token.GTR {
+			if (isElem(r.X, params[0]) && isElem(r.Y, params[1])) || (isElem(r.X, params[1]) && isElem(r.Y, params[0])) {
+				return true, text
+			}
+		}
+	case *ast.CallExpr:
+		if f := types.ExprString(r.Fun); (f == "cmp.Compare" || f == "strings.Compare") && len(r.Args) == 2 {
+			if (isElem(r.Args[0], params[0]) && isElem(r.Args[1], params[1])) || (isElem(r.Args[0], params[1]) && isElem(r.Args[1], params[0])) {
+				return true, text
+			}
+		}
+	}
+	return false, text
+}
+
+var naturalSorts = map[string]bool{"sort.Strings": true, "sort.Ints": true, "sort.Float64s": true, "slices.Sort": true}
+var comparatorSorts = map[string]bool{"sort.Slice": true, "sort.SliceStable": true, "slices.SortFunc": true, "slices.SortStableFunc": true}
+
+// isSortCall: the statement sorts `target` by a total order on its elements.
 func isSortCall(st ast.Stmt, target string) bool {
 	es, ok := st.(*ast.ExprStmt)
 	if !ok {
 		return false
 	}
 	call, ok := es.X.(*ast.CallExpr)
-	if !ok || len(call.Args) == 0 {
+	if !ok || len(call.Args) == 0 || types.ExprString(call.Args[0]) != target {
 		return false
 	}
-	switch types.ExprString(call.Fun) {
-	case "sort.Strings", "sort.Ints", "sort.Slice", "sort.SliceStable", "sort.Sort", "sort.Stable", "slices.Sort", "slices.SortFunc", "slices.SortStableFunc":
-		return types.ExprString(call.Args[0]) == target
+	name := types.ExprString(call.Fun)
+	if naturalSorts[name] {
+		return true
+	}
+	if comparatorSorts[name] && len(call.Args) == 2 {
+		total, _ := comparatorTotal(target, call.Args[1])
+		return total
 	}
 	return false
+}
+
+// c05Sorts lists every sort with a caller-supplied order in the package.
+func c05Sorts(p *Pkg, rel string, out *[]rangeSite) {
+	for _, f := range p.Files {
+		fname := filepath.Base(p.Fset.Position(f.Pos()).Filename)
+		for _, d := range f.Decls {
+			fd, ok := d.(*ast.FuncDecl)
+			if !ok || fd.Body == nil {
+				continue
+			}
+			ast.Inspect(fd.Body, func(n ast.Node) bool {
+				call, ok := n.(*ast.CallExpr)
+				if !ok {
+					return true
+				}
+				name := types.ExprString(call.Fun)
+				switch {
+				case comparatorSorts[name] && len(call.Args) == 2:
+					total, text := comparatorTotal(types.ExprString(call.Args[0]), call.Args[1])
+					cls := 1
+					if total {
+						cls = 0
+					}
+					*out = append(*out, rangeSite{file: rel[strings.LastIndex(rel, "/")+1:] + "/" + fname, line: p.Fset.Position(call.Pos()).Line,
+						fn: funcName(fd), expr: name + "(" + types.ExprString(call.Args[0]) + ")", cls: cls, note: text})
+				case name == "sort.Sort" || name == "sort.Stable":
+					*out = append(*out, rangeSite{file: rel[strings.LastIndex(rel, "/")+1:] + "/" + fname, line: p.Fset.Position(call.Pos()).Line,
+						fn: funcName(fd), expr: name + "(" + types.ExprString(call.Args[0]) + ")", cls: 1, note: "sort.Interface implementation"})
+				}
+				return true
+			})
+		}
+	}
 }
 
 func (c *c05Ctx) classify(rs *ast.RangeStmt, after []ast.Stmt, fn string) (int, string) {
@@ -554,6 +643,20 @@ func c05Facts(repo string, w *strings.Builder) error {
 			sep = ""
 		}
 		fmt.Fprintf(w, "  ⟨%s, %d, %s, %s, %d, %d, %s⟩%s\n", leanStr(s.file), s.line, leanStr(s.fn), leanStr(s.expr), s.cls, s.scope, leanStr(s.note), sep)
+	}
+	w.WriteString("]\n\n")
+	var sorts []rangeSite
+	for _, sp := range specs {
+		c05Sorts(pkgs[sp.rel], sp.rel, &sorts)
+	}
+	w.WriteString("/-- every sort with a caller-supplied order (sort.Slice, sort.SliceStable, slices.SortFunc, slices.SortStableFunc, sort.Sort, sort.Stable):\n(file, line, function, call, final comparison, 0 = total order on the elements themselves / 1 = not recognised as one) -/\n")
+	w.WriteString("def sortComparators : List (String × Nat × String × String × String × Nat) := [\n")
+	for i, st := range sorts {
+		sep := ","
+		if i == len(sorts)-1 {
+			sep = ""
+		}
+		fmt.Fprintf(w, "  (%s, %d, %s, %s, %s, %d)%s\n", leanStr(st.file), st.line, leanStr(st.fn), leanStr(st.expr), leanStr(st.note), st.cls, sep)
 	}
 	w.WriteString("]\n\n")
 	if err := c05Translator(pkgs["cypher/models/pgsql/translate"], w); err != nil {
@@ -931,10 +1034,31 @@ func c05KindMapper(p *Pkg, w *strings.Builder) error {
 			ms = append(ms, m)
 		}
 	}
+	// AssertKinds returns the ids position-wise: `ids[idx] = s.Put(kind)` with idx, kind ranging over the kinds argument
+	positionWise := false
+	if fd := findFunc(p, "InMemoryKindMapper", "AssertKinds"); fd != nil {
+		ast.Inspect(fd.Body, func(n ast.Node) bool {
+			rs, ok := n.(*ast.RangeStmt)
+			if !ok || types.ExprString(rs.X) != "kinds" || rs.Key == nil {
+				return true
+			}
+			for _, st := range rs.Body.List {
+				if as, ok := st.(*ast.AssignStmt); ok && len(as.Lhs) == 1 && len(as.Rhs) == 1 {
+					if ix, ok := as.Lhs[0].(*ast.IndexExpr); ok && types.ExprString(ix.Index) == types.ExprString(rs.Key) {
+						if call, ok := as.Rhs[0].(*ast.CallExpr); ok && strings.HasSuffix(types.ExprString(call.Fun), ".Put") {
+							positionWise = true
+						}
+					}
+				}
+			}
+			return true
+		})
+	}
 	sort.Slice(ms, func(i, j int) bool { return ms[i].name < ms[j].name })
 	fmt.Fprintf(w, "/-- pgutil.InMemoryKindMapper: per method, whether it touches / writes the shared fields (the two maps and the id counter) directly and whether it takes a lock of the struct -/\n")
 	fmt.Fprintf(w, "structure KMMethod where\n  name : String\n  touches : Bool\n  writes : Bool\n  holdsLock : Bool\n  checksBeforeWrite : Bool\n  calls : List String\nderiving Repr, DecidableEq\n")
 	fmt.Fprintf(w, "def kindMapperMutexFields : List String := %s\n", leanStrList(sortedKeys(mutexes)))
+	fmt.Fprintf(w, "/-- AssertKinds fills its result position-wise (`ids[idx] = s.Put(kinds[idx])`), so the order of the ids is the order of the kinds -/\ndef assertKindsPositionWise : Bool := %v\n", positionWise)
 	fmt.Fprintf(w, "def kindMapperSharedFields : List String := %s\n", leanStrList(sortedKeys(shared)))
 	w.WriteString("def kindMapperMethods : List KMMethod := [\n")
 	for i, m := range ms {
